@@ -220,7 +220,11 @@ impl AssociationHandler for AssocHandler {
     fn get_current_time(&self) -> Option<Timestamp> {
         let base = (*self.clock.base_ms.lock().unwrap())?;
         let elapsed = (tokio::time::Instant::now() - self.clock.t0).as_millis() as u64;
-        Some(Timestamp::new(base.wrapping_add(elapsed)))
+        let v = base.checked_add(elapsed)?;
+        if v > (1u64 << 48) - 1 {
+            return None; // a real clock cannot be beyond what DNP3 can express
+        }
+        Some(Timestamp::new(v))
     }
 }
 
